@@ -233,3 +233,8 @@ where
 {
     req.extract(R::METHOD)
 }
+
+// Verification harnesses (engine K of /verif); compiled only by `cargo kani`.
+#[cfg(kani)]
+#[path = "/verif/kani/parol_ls/mod.rs"]
+mod verif_kani;
